@@ -132,6 +132,11 @@ structure Acc where
   msPrev : Nat
   trace : List String
   err : Option String
+  /-- [t7:in-use] index of the file whose configuration is running: only a SUCCESSFUL reload moves it -/
+  inUse : Nat := 0
+  /-- [t7:in-use] specification side: a failed reload leaves no trace, in particular the file index is
+  the one of the configuration in use again ("behaves exactly as if no reload had been requested") -/
+  specIdx : Bool := false
 
 def emit (a : Acc) (toks : List String) : List String := a.trace ++ toks.map (fun t => s!"{a.iter}:{t}")
 
@@ -159,7 +164,14 @@ def iterate (rl : RL) (a : Acc) (inp : Option Mini.Ev) (ms : Nat) : Acc × Bool 
     let toks := r.os.filterMap osTok ++ notesOf ms s0 ++
       (match r.attempt with | some true => ["ok"] | some false => ["fail"] | none => []) ++
       r.msgs.map msgTok
-    ({ a with st := freeze r.st, msPrev := r.msNext, trace := emit a toks, iter := a.iter + 1 }, false)
+    -- [t7:in-use]
+    let inUse' : Nat := match r.attempt with
+      | some true => (r.st .cur_cfg_idx : Nat)
+      | _ => a.inUse
+    let st' : KSt MW := match r.attempt with
+      | some false => if a.specIdx then r.st.set .cur_cfg_idx a.inUse else r.st
+      | _ => r.st
+    ({ a with st := freeze st', msPrev := r.msNext, trace := emit a toks, iter := a.iter + 1, inUse := inUse' }, false)
 
 def idleN (rl : RL) : Nat → Acc → Acc
   | 0, a => a
@@ -194,12 +206,12 @@ def summary (withTsi : Bool) (s : KSt MW) : String :=
   (if withTsi then s!"tsi={(s .ticks_since_idle : Nat)} " else "") ++
   s!"pk={joinWith "," (pk.map toString)}"
 
-def runS (rl : RL) (withTsi : Bool) (files : List FContent) (steps : List Step) : String :=
+def runS (rl : RL) (withTsi : Bool) (specIdx : Bool) (files : List FContent) (steps : List Step) : String :=
   match files.head? with
   | some (.ok c0) =>
     let paths := List.range files.length
     let st : KSt MW := fresh (W := MW) paths c0
-    let a := runSteps' rl steps ⟨st, files, 0, 0, [], none⟩
+    let a := runSteps' rl steps { st := st, files := files, iter := 0, msPrev := 0, trace := [], err := none, inUse := 0, specIdx := specIdx }
     let tr := if a.trace.isEmpty then "-" else " ".intercalate a.trace
     match a.err with
     | some e => s!"{tr} | {e}"
@@ -226,7 +238,7 @@ def run (line : String) : String × String :=
     match caseS.run rest with
     | .error e => (s!"bad-case {e}", "-")
     | .ok ((files, steps), _) =>
-      (runS (doLiveReload (W := MW)) true files steps, runS (restartReload (W := MW)) false files steps)
+      (runS (doLiveReload (W := MW)) true false files steps, runS (restartReload (W := MW)) false true files steps)
   | "C15" :: "R" :: _old :: _hist :: kind :: _ => (verdictR kind, verdictR kind)
   | _ => ("bad-case", "-")
 
